@@ -221,6 +221,70 @@ func c08(p *core.Program, r *core.Report) {
 		}
 	}
 	r.Floor("C08/R2 functions assigning persisted options", nMut, 4)
+	// the per-field set of remotely available shards is persisted the same way
+	{
+		isShardsMut := func(n ast.Node) bool {
+			switch x := n.(type) {
+			case *ast.AssignStmt:
+				for _, l := range x.Lhs {
+					if sel, ok := ast.Unparen(l).(*ast.SelectorExpr); ok && sel.Sel.Name == "remoteAvailableShards" {
+						if s, ok := info.Selections[sel]; ok && s.Kind() == types.FieldVal && core.IsNamed(s.Recv(), core.ModPath, "Field") {
+							return true
+						}
+					}
+				}
+			case *ast.CallExpr:
+				if fn := core.CalleeOf(info, x); fn != nil && fn.Name() == "mergeRemoteAvailableShards" && recvNamed(fn, "Field") {
+					return true
+				}
+			}
+			return false
+		}
+		isShardsSave := func(n ast.Node) bool {
+			c, ok := n.(*ast.CallExpr)
+			if !ok {
+				return false
+			}
+			fn := core.CalleeOf(info, c)
+			return fn != nil && recvNamed(fn, "Field") && (fn.Name() == "saveAvailableShards" || fn.Name() == "unprotectedSaveAvailableShards")
+		}
+		exempt := map[string]string{
+			"(*Field).mergeRemoteAvailableShards": "in-memory helper; every caller is checked",
+			"(*Field).loadAvailableShards":        "load time: merges what was just read from the file",
+		}
+		nS := 0
+		for _, fd := range core.AllFuncDecls(pk) {
+			if fd.Body == nil || strings.HasSuffix(p.Fset.Position(fd.Pos()).Filename, "_test.go") {
+				continue
+			}
+			has := false
+			ast.Inspect(fd.Body, func(n ast.Node) bool {
+				if n != nil && isShardsMut(n) {
+					has = true
+				}
+				return true
+			})
+			if !has {
+				continue
+			}
+			name := core.FuncName(fd) + " available shards"
+			nS++
+			if why, ok := exempt[core.FuncName(fd)]; ok {
+				r.HoldAt("R2", name, p.Pos(fd.Pos()), why)
+				continue
+			}
+			res := runPathRule(pathRuleSpec{info: info, fd: fd, trigger: isShardsMut, required: []func(ast.Node) bool{isShardsSave}})
+			switch {
+			case res.unsupported != "":
+				r.Undecide("R2", name, p.Pos(fd.Pos()), res.unsupported)
+			case len(res.missing) > 0:
+				r.Violate("R2", name, p.Pos(res.witnessPos.Pos()), "the field's set of remotely available shards is changed and the function can return normally without writing .available.shards: after a restart the shard is missing from the field's (and the index's) available shards until another node announces it again")
+			default:
+				r.HoldAt("R2", name, p.Pos(fd.Pos()), "the set is saved on every normal path after it changes")
+			}
+		}
+		r.Floor("C08/R2 functions changing remote available shards", nS, 3)
+	}
 	// every caller of applyOptions other than Field.Open (which re-applies the
 	// loaded options) saves the meta file afterwards
 	isApply := func(n ast.Node) bool {
